@@ -18,7 +18,7 @@ LEVEL_TEXT = ("close() is issued at enumerated event-loop steps of nine session 
               "faithfulness of the status trace; a raising status callback must be indistinguishable from a plain one. Thorough "
               "enumerates every step of every shape; quick a stride plus Hypothesis-chosen steps.")
 TECHNIQUE = "schedule enumeration (close() at every event-loop step of each session shape) with invariants checked at every loop step; metamorphic comparison of status-callback behaviours"
-RULE = ("shape x client x close step k x status callback {plain, raise, slow}; oracle: from the step close() is entered state == CLOSED at "
+RULE = ("shape x client x close step k x status callback {plain, raise, slow}, plus link events (data / EOF / reset / Sorry,Limited) injected 0..4 loop steps after close() is entered; oracle: from the step close() is entered state == CLOSED at "
         "every loop step and no connection attempt is initiated; after close() returns no receive callback, every link closed, no client "
         "task pending after settling; status trace has no two equal consecutive entries, contains the polled state sequence as a "
         "subsequence and ends in the final state; raising callback run == plain run on attempts/bytes/deliveries/state polls; "
